@@ -111,6 +111,7 @@ def community_louvain(W, gamma=1, ci=None, B='modularity', seed=None):
         optimized q-statistic (modularity only)
     '''
     rng = get_rng(seed)
+    W = np.asarray(W, dtype=float)  # degree sums must not wrap in a narrow integer container
     n = len(W)
     s = np.sum(W)
 
@@ -632,6 +633,7 @@ def modularity_finetune_dir(W, ci=None, gamma=1, seed=None):
     algorithm. Consequently, it may be worth to compare multiple runs.
     '''
     rng = get_rng(seed)
+    W = np.asarray(W, dtype=float)  # degree sums must not wrap in a narrow integer container
 
     n = len(W)  # number of nodes
     if ci is None:
@@ -740,6 +742,7 @@ def modularity_finetune_und(W, ci=None, gamma=1, seed=None):
     algorithm. Consequently, it may be worth to compare multiple runs.
     '''
     rng = get_rng(seed)
+    W = np.asarray(W, dtype=float)  # degree sums must not wrap in a narrow integer container
 
     #import time
     n = len(W)  # number of nodes
@@ -847,6 +850,7 @@ def modularity_finetune_und_sign(W, qtype='sta', gamma=1, ci=None, seed=None):
     algorithm. Consequently, it may be worth to compare multiple runs.
     '''
     rng = get_rng(seed)
+    W = np.asarray(W, dtype=float)  # degree sums must not wrap in a narrow integer container
 
     n = len(W)  # number of nodes/modules
     if ci is None:
@@ -987,6 +991,7 @@ def modularity_louvain_dir(W, gamma=1, hierarchy=False, seed=None):
     algorithm. Consequently, it may be worth to compare multiple runs.
     '''
     rng = get_rng(seed)
+    W = np.asarray(W, dtype=float)  # degree sums must not wrap in a narrow integer container
 
     n = len(W)  # number of nodes
     s = np.sum(W)  # total weight of edges
@@ -1127,6 +1132,7 @@ def modularity_louvain_und(W, gamma=1, hierarchy=False, seed=None):
     algorithm. Consequently, it may be worth to compare multiple runs.
     '''
     rng = get_rng(seed)
+    W = np.asarray(W, dtype=float)  # degree sums must not wrap in a narrow integer container
 
     n = len(W)  # number of nodes
     s = np.sum(W)  # weight of edges
@@ -1271,6 +1277,7 @@ def modularity_louvain_und_sign(W, gamma=1, qtype='sta', seed=None):
     algorithm. Consequently, it may be worth to compare multiple runs.
     '''
     rng = get_rng(seed)
+    W = np.asarray(W, dtype=float)  # degree sums must not wrap in a narrow integer container
 
     n = len(W)  # number of nodes
 
@@ -1448,6 +1455,7 @@ def modularity_probtune_und_sign(W, qtype='sta', gamma=1, ci=None, p=.45,
     algorithm. Consequently, it may be worth to compare multiple runs.
     '''
     rng = get_rng(seed)
+    W = np.asarray(W, dtype=float)  # degree sums must not wrap in a narrow integer container
 
     n = len(W)
     if ci is None:
@@ -1667,6 +1675,7 @@ def modularity_und_sign(W, ci, qtype='sta'):
     -----
     uses a deterministic algorithm
     '''
+    W = np.asarray(W, dtype=float)  # degree sums must not wrap in a narrow integer container
     n = len(W)
     _, ci = np.unique(ci, return_inverse=True)
     ci += 1
